@@ -5,7 +5,7 @@ package bitmap
 // Since 0.1.9
 func Slice(words []uint64, from, to int32) []uint64 {
 
-	l := ((to - from) + 63) & (^63)
+	l := ((to - from) + 63) >> 6
 	r := make([]uint64, l)
 
 	for i := from; i < to; i++ {
